@@ -34,11 +34,12 @@ type c05S struct {
 	order   int64
 	line    []int64
 	waiting map[int64]int64
+	quit    chan struct{}
 }
 
 func newC05S() *c05S {
 	h := &c05S{peers: map[int64]*c05SPeer{}, peerNo: map[peer.ID]int64{}, reqs: map[int64]dialRequest{},
-		cancels: map[int64]context.CancelFunc{}, line: []int64{3}, waiting: map[int64]int64{}}
+		cancels: map[int64]context.CancelFunc{}, line: []int64{3}, waiting: map[int64]int64{}, quit: make(chan struct{})}
 	h.ds = newDialSync(h.worker)
 	return h
 }
@@ -85,6 +86,8 @@ func (h *c05S) worker(p peer.ID, reqch <-chan dialRequest) {
 			ctxs = append(ctxs, req.ctx)
 		case <-done:
 			sawCancel = true
+		case <-h.quit:
+			return // end of the case: a worker that was never stopped is not left parked
 		}
 	}
 }
@@ -144,6 +147,13 @@ func (h *c05S) enter(c, p int64) {
 	h.mu.Unlock()
 	h.waiting[c] = p
 	go func() {
+		defer func() {
+			if r := recover(); r != nil {
+				h.mu.Lock()
+				h.rets = append(h.rets, [2]int64{c, 9}) // Dial panicked
+				h.mu.Unlock()
+			}
+		}()
 		conn, err := h.ds.Dial(ctx, id)
 		k := int64(1)
 		switch {
@@ -226,6 +236,8 @@ func c05SyncRandom(out *verifh.Out, r *verifh.Rand, size int) {
 			h.respond(c, int64(r.Intn(2)))
 		}
 	}
+	close(h.quit)
+	synctest.Wait()
 	out.Cover("sync.cases")
 	if maxWait >= 3 {
 		out.Cover("sync.cases_with_3_or_more_concurrent_callers")
